@@ -88,6 +88,12 @@ def wf_scan(x, out, ctxt="top", seen=None):
         wf_scan(v, out, sub, seen)
 
 
+WF_SRC = ("import os.path\nimport xml.dom.minidom as m\nimport xml.etree.ElementTree\nfrom os import path as p, sep\n"
+          "class G:\n    def __init__(self):\n        self.log = []\n    def __setitem__(self, k, v):\n        self.log.append((k, v))\n    def __getitem__(self, k):\n        return 1\n"
+          "g = G()\ng[1:2, 3] = 5\ng[::2, 0] += 1\ng[4:] = 6\n"
+          "r = (os.path.sep, m.Node, xml.etree.ElementTree.Element, p, sep, g.log)\n")
+
+
 def g_wf(R, tier):
     machine.EMITTED = []
     try:
@@ -99,6 +105,13 @@ def g_wf(R, tier):
                     mod.GROUPS[g](sub, tier)
                 except BaseException as e:  # noqa: BLE001
                     R.undecided(f"emitters/{modname}.{g}", f"group crashed: {e!r}")
+                # W1 at the call sites: names handed to the namespace contract (they become
+                # walrus targets / Name ids) are identifiers -- the callee precondition
+                for it in sub.items:
+                    if it["name"].endswith("/callee-preconditions"):
+                        nm = it["name"].split("/", 2)[2]
+                        R.check(f"W1-names-passed-to-the-namespace-are-identifiers/{nm}", it["status"] == "discharged", it["detail"],
+                                replay=dict(kind="src", src=WF_SRC, expect="compiles"))
         emitted = list(machine.EMITTED)
     finally:
         machine.EMITTED = None
@@ -118,7 +131,7 @@ def g_wf(R, tier):
             R.ok(f"{fn}/builds-no-node-with-a-compile-time-rule", "structural")
         for clause, (ok, dts) in sorted(per[fn].items()):
             R.check(f"{fn}/{clause}", ok, "; ".join(sorted(set(dts)))[:300],
-                    replay=dict(kind="src", src="import os.path\nimport xml.dom.minidom as m\nr = (os.path.sep, m.Node)\n", expect="compiles"))
+                    replay=dict(kind="src", src=WF_SRC, expect="compiles"))
 
 
 def literals_of(t, out):
@@ -144,6 +157,18 @@ def g_newline(R, tier, kinds=None):
                 c03.GROUPS[k](sub, tier)
             except BaseException as e:  # noqa: BLE001
                 R.undecided(f"templates/{k}", f"group crashed: {e!r}")
+            # "compiles as exactly one expression": the text of every path is the grammar
+            # production of the node (the C03 obligations of this kind, required here too)
+            n_ok = 0
+            for it in sub.items:
+                clause = "is-an-expression/" + it["name"].split("/", 2)[2]
+                if it["status"] == "discharged":
+                    n_ok += it.get("count", 1)
+                elif it["status"] == "undecided":
+                    R.undecided(clause, it["detail"])
+                else:
+                    R.fail(clause, it["detail"], it.get("replay"), backend=it.get("backend", "structural"))
+            R.ok_many(f"is-an-expression/{k}/template-glue-slot-obligations", n_ok, backend="z3+structural")
         sink = list(c03.TEMPLATE_SINK)
     finally:
         c03.TEMPLATE_SINK = None
@@ -198,7 +223,7 @@ def _chunk(i, n):
     return g
 
 
-GROUPS = {"wf": g_wf, "replace": g_replace, "witness": g_witness, "convert_code_string": _dflt,
+GROUPS = {"bounded:lambda-signatures": c03.g_lambda_signatures_bounded, "wf": g_wf, "replace": g_replace, "witness": g_witness, "convert_code_string": _dflt,
           "string_contents_per_char": c04.g_escaper_per_char, "trampoline": c03.g_trampoline, "canary": c13.g_canary}
 for _i in range(8):
     GROUPS[f"newline:{_i}"] = _chunk(_i, 8)
